@@ -214,6 +214,14 @@ pub fn final_reply_strategy() -> impl Strategy<Value = Value> {
     )
 }
 
+#[derive(serde_derive::Deserialize, Debug)]
+#[allow(dead_code)]
+struct TypedReply {
+    a: i64,
+    #[serde(default)]
+    b: Option<String>,
+}
+
 fn part_a(ctx: &mut Ctx) {
     let cases = ctx.tier.pick(30_000, 500_000);
     let r = pt::check(ctx, "c07a", cases, final_reply_strategy(), |ctx, reply| {
@@ -233,6 +241,29 @@ fn part_a(ctx: &mut Ctx) {
         check_outcome("outcome", &want, &got)?;
         if !fake.slots_present() {
             return Err(Fail::new("outcome/slots-not-returned", "after the final reply the connection is not usable"));
+        }
+        // the same reply read through a typed call object (the shape generated bindings use): whether
+        // or not its parameters decode into the reply type, it was the final reply - the connection
+        // is usable again and the next call gets its own reply
+        let mut fake = Fake::new();
+        fake.push_replies(std::slice::from_ref(reply));
+        let typed: Result<TypedReply, varlink::Error> = varlink::MethodCall::<Value, TypedReply, varlink::Error>::new(fake.conn.clone(), "org.x.M", json!({"a": 1})).call();
+        ctx.class(if typed.is_ok() { "a:typed-reply-decodes" } else { "a:typed-reply-does-not-decode-or-error" });
+        if !fake.slots_present() {
+            return Err(Fail::new(
+                "outcome/slots-not-returned-after-typed-reply",
+                format!("after the final reply {} (typed call returned {:?}) the connection is not usable", reply, typed.as_ref().map(|_| ()).map_err(|e| e.kind().clone())),
+            ));
+        }
+        fake.push_replies(&[json!({"parameters": {"follow": 7}})]);
+        match vcall(&fake.conn, "org.x.Next", json!({})).call() {
+            Ok(v) if v == json!({"follow": 7}) => {}
+            other => {
+                return Err(Fail::new(
+                    "outcome/follow-up-after-typed-reply",
+                    format!("the call after final reply {} returned {:?} instead of its own reply", reply, other.map_err(|e| e.kind().clone())),
+                ))
+            }
         }
         Ok(())
     });
